@@ -40,6 +40,15 @@ def special_positions(g, w, rng):
                 for it in v:
                     if isinstance(it, list) and len(it) > 1:
                         pos.extend((kind + ":depth-node", list(p)) for p in it[1])
+        # ridge coordinates and exactly representable points of ridge segments (age zero)
+        for m in f.get("temperature models", []) or []:
+            for ridge in m.get("ridge coordinates", []) or []:
+                for i, p in enumerate(ridge):
+                    pos.append(("ridge:vertex", list(p)))
+                    if i + 1 < len(ridge):
+                        q = ridge[i + 1]
+                        for t in (0.5, 0.25, 0.75):
+                            pos.append(("ridge:segment", [p[0] + t * (q[0] - p[0]), p[1] + t * (q[1] - p[1])]))
     if g.spherical:
         pos += [("north-pole", [0, 90]), ("south-pole", [0, -90]), ("north-pole", [77, 90]), ("meridian+180", [180, rng.uniform(-80, 80)]), ("meridian-180", [-180, rng.uniform(-80, 80)]),
                 ("meridian+180", [180, 0]), ("equator-0", [0, 0])]
@@ -63,11 +72,45 @@ def special_depths(g, w):
     return ds
 
 
+class RidgeWorld:
+    """structured world: an oceanic plate with a ridge-based cooling model (age zero on the ridge), `force surface temperature` off"""
+    def __init__(self, rng, spherical, model):
+        self.spherical = spherical
+        self.radius = 6371000
+        self.rng = rng
+        sc = 1.0 if spherical else 20e3
+        x0, y0 = (rng.choice([-170, 10, 150]), rng.choice([-20, 10])) if spherical else (rng.choice([-400e3, 0]), rng.choice([0, 100e3]))
+        box = [[x0, y0], [x0 + 30 * sc, y0], [x0 + 30 * sc, y0 + 30 * sc], [x0, y0 + 30 * sc]]
+        ridge = [[x0 + 8 * sc, y0 + 2 * sc], [x0 + 12 * sc, y0 + 16 * sc], [x0 + 20 * sc, y0 + 28 * sc]][:rng.choice([2, 3])]
+        m = {"model": model, "min depth": 0, "max depth": 100e3, "top temperature": 273, "bottom temperature": rng.choice([1573, -1]), "ridge coordinates": [ridge],
+             "spreading velocity": rng.choice([0.05, [[0, [[0.02 + 0.01 * j for j in range(len(ridge))]]]]])}
+        self.w = {"version": "1.1", "force surface temperature": False, "features": [{"model": "oceanic plate", "name": "o", "coordinates": box, "max depth": 200e3, "temperature models": [m]}]}
+        if spherical:
+            self.w["coordinate system"] = {"model": "spherical", "depth method": "starting point"}
+    def world(self):
+        return self.w
+    def point3(self, sp, depth):
+        if self.spherical:
+            rr = self.radius - depth
+            lon, lat = math.radians(sp[0]), math.radians(sp[1])
+            cl = rr * math.sin(0.5 * math.pi - lat)
+            return [cl * math.cos(lon), cl * math.sin(lon), rr * math.cos(0.5 * math.pi - lat)]
+        return [sp[0], sp[1], 1000e3 - depth]
+    def props(self):
+        return self.rng.choice([[(1, 0, 0)], [(1, 0, 0), (4, 0, 0)], [(2, 0, 0), (1, 0, 0), (5, 0, 0)]])
+    def queries2d(self, w, n):
+        return []
+
+
 def build_session(rng, decl, tier, wdir, name):
     lines, tags = [], []
     nw = budget(tier, 22, 250)
-    for wi in range(nw):
-        g = WorldGen(random.Random(rng.getrandbits(64)), schema=decl, with_lines=True, with_random=(wi % 4 == 0), max_features=3)
+    structured = [(sph, model) for sph in (False, True) for model in ("half space model", "plate model")]
+    for wi in range(nw + len(structured)):
+        if wi >= nw:
+            g = RidgeWorld(rng, *structured[wi - nw])
+        else:
+            g = WorldGen(random.Random(rng.getrandbits(64)), schema=decl, with_lines=True, with_random=(wi % 4 == 0), max_features=3)
         w = g.world()
         path = os.path.join(wdir, "%s_%d.wb" % (name, wi))
         json.dump(w, open(path, "w"))
@@ -94,6 +137,9 @@ def build_session(rng, decl, tier, wdir, name):
             else:
                 lines.append(q3("w", p3, d, [(1, 0, 0), (4, 0, 0)]))
             tags.append(tag)
+        for (tag, sp) in [x for x in pos if x[0].startswith("ridge:")][:12]:
+            for d in (0.0, 1.0):
+                lines.append(q3("w", g.point3(sp, d), d, [(1, 0, 0), (4, 0, 0)])); tags.append(tag)
         # the planet's centre / far below the box
         if g.spherical:
             lines.append(q3("w", [0.0, 0.0, 0.0], float(g.radius), g.props())); tags.append("planet-centre")
